@@ -2,6 +2,8 @@
 
 package sim
 
+import "verif/fsx"
+
 // RaceBuild reports whether the binary was built with -race.
 const RaceBuild = false
 
@@ -11,3 +13,8 @@ func raceEnable() {}
 
 // RaceErrors returns the number of data races reported so far.
 func RaceErrors() int { return 0 }
+
+func init() {
+	// observations of the tree run under a budget of lock events (not in race builds: the counters are plain variables).
+	fsx.Guard = GuardDirect
+}
